@@ -98,7 +98,7 @@ class Monotone(_DateHarness):
         return [{'time': False}, {'time': True}]
 
     def build(self, e, p):
-        return {'t': dates.fresh_datetime(e, 't', with_time=p['time']), 'u': dates.fresh_datetime(e, 'u', with_time=p['time'])}
+        return {'t': dates.fresh_datetime_ord(e, 't', with_time=p['time']), 'u': dates.fresh_datetime_ord(e, 'u', with_time=p['time'])}
 
     def run(self, env, inp, p):
         ut = env.mod('formulas.utils')
@@ -154,7 +154,7 @@ class ThroughParse(_DateHarness):
 
     def build(self, e, p):
         t = dates.fresh_datetime(e, 't', month=p['month'])
-        u = dates.fresh_datetime(e, 'u')
+        u = dates.fresh_datetime_ord(e, 'u')
         n = e.fresh_int('n', -3000000, 3000000)
         e.add(t.ord >= ORD_1900_03_01, u.ord >= ORD_1900_03_01)
         e.add(t.ord + n.z >= ORD_1900_03_01, t.ord + n.z <= dates.MAXORD)
